@@ -94,7 +94,21 @@ type ViolOut struct {
 	Log       []string `json:"log"`
 	Crash     bool     `json:"crash,omitempty"`
 	CrashOut  string   `json:"crash_output,omitempty"`
-	Path      string   `json:"-"`
+	// Fine: found by (and only replayable with) the statement-granularity build of the library (see ./check, fine mode)
+	Fine bool   `json:"fine_grained,omitempty"`
+	Path string `json:"-"`
+}
+
+// fineMode: this binary was built against a scratch copy of the library in which tools yieldrewrite put a scheduling
+// point in front of every statement of the files the property is anchored in (the check script sets VERIF_FINE).
+var fineMode = os.Getenv("VERIF_FINE") != ""
+
+// seedKey separates the run seeds of the two modes.
+func seedKey(id string) string {
+	if fineMode {
+		return id + "#fine"
+	}
+	return id
 }
 
 type Sample struct {
@@ -192,7 +206,7 @@ func cmdWorker(args []string) {
 		if jf != nil {
 			jf.WriteAt([]byte(fmt.Sprintf("%012d\n", i)), 0)
 		}
-		rs := sim.Mix(*seed, p.ID, uint64(i))
+		rs := sim.Mix(*seed, seedKey(p.ID), uint64(i))
 		r := sim.NewRun(rs)
 		func() {
 			defer r.Close()
@@ -331,6 +345,8 @@ func cmdRun(args []string) {
 	runsF := fs.Int("runs", 0, "override the number of runs")
 	wallF := fs.Duration("wall", 0, "override the wall budget")
 	noEvidence := fs.Bool("no-evidence", false, "")
+	summaryOut := fs.String("summary-out", "", "write a JSON summary of this batch to the file")
+	fineSummary := fs.String("fine-summary", "", "JSON summary of the statement-granularity batch that ran before this one (goes into the evidence)")
 	fs.Parse(args)
 	p := props.Get(*propID)
 	if p == nil {
@@ -365,6 +381,12 @@ func cmdRun(args []string) {
 	b := p.Quick
 	if *tier == "thorough" {
 		b = p.Thorough
+	}
+	if fineMode {
+		// statement-granularity runs are several times longer: a fraction of the budget
+		b.Runs = max(b.Runs/8, 400)
+		b.Wall = b.Wall / 2
+		fmt.Printf("verifsim: statement-granularity build of the library (a scheduling point in front of every statement of the anchored files)\n")
 	}
 	if *runsF > 0 {
 		b.Runs = *runsF
@@ -468,7 +490,12 @@ func cmdRun(args []string) {
 			continue
 		}
 		h := sha256.Sum256([]byte(key))
-		path := filepath.Join(verifDir(), "replays", fmt.Sprintf("%s-%d-%s.json", p.ID, v.RunSeed, hex.EncodeToString(h[:4])))
+		suffix := ""
+		if fineMode {
+			v.Fine = true
+			suffix = "-fine"
+		}
+		path := filepath.Join(verifDir(), "replays", fmt.Sprintf("%s-%d-%s%s.json", p.ID, v.RunSeed, hex.EncodeToString(h[:4]), suffix))
 		jb, _ := json.MarshalIndent(v, "", " ")
 		if err := os.WriteFile(path, jb, 0o644); err != nil {
 			die2("%v", err)
@@ -485,8 +512,23 @@ func cmdRun(args []string) {
 	if tot.Runs == 0 {
 		tot.Runs = nViol // the crashed runs themselves
 	}
+	if *summaryOut != "" {
+		sum := map[string]any{"runs": tot.Runs, "scheduler_steps": tot.Steps, "context_switches": tot.Switches, "nontrivial_runs": tot.NonTrivial,
+			"distinct_nontrivial": len(fpset), "wall_s": wallS, "violations": nViol, "tasks_blocked_on_a_lock": tot.Blocked, "faults_fired": tot.Faults,
+			"run_seeds": fmt.Sprintf("run i uses seed mix(VERIF_SEED=%d, %q, i), i in [0,%d)", int64(seed), seedKey(p.ID), tot.Runs)}
+		sb, _ := json.Marshal(sum)
+		if err := os.WriteFile(*summaryOut, sb, 0o644); err != nil {
+			die2("%v", err)
+		}
+	}
 	if !*noEvidence {
-		writeEvidence(p, *tier, seed, tot, len(fpset), wallS, nViol, known, w)
+		var fine map[string]any
+		if *fineSummary != "" {
+			if fb, err := os.ReadFile(*fineSummary); err == nil {
+				json.Unmarshal(fb, &fine)
+			}
+		}
+		writeEvidence(p, *tier, seed, tot, len(fpset), wallS, nViol, known, w, fine)
 	}
 	fmt.Printf("verifsim: %s %s: %d runs, %d steps, %d nontrivial (%d distinct), %.1fs, %d violation(s), %d known finding(s)\n",
 		p.ID, *tier, tot.Runs, tot.Steps, tot.NonTrivial, len(fpset), wallS, nViol, known)
@@ -569,9 +611,9 @@ func superviseWorker(p *props.Prop, tier string, seed uint64, k, w int, b props.
 		if strings.HasPrefix(fatalKind(se2.String()), "no-return") {
 			what, cls = "a call into the library did not return: ", "no-return"
 		}
-		crashes = append(crashes, ViolOut{Property: p.ID, Tier: tier, RunSeed: sim.Mix(seed, p.ID, uint64(idx)), RunIndex: idx,
+		crashes = append(crashes, ViolOut{Property: p.ID, Tier: tier, RunSeed: sim.Mix(seed, seedKey(p.ID), uint64(idx)), RunIndex: idx,
 			Class: cls, Detail: what + fatalKind(se2.String()) + "\n" + crashSummary(se2.String()),
-			Crash: true, CrashOut: head(se2.String(), 6000), Case: crashCase(se2.String())})
+			Crash: true, Fine: fineMode, CrashOut: head(se2.String(), 6000), Case: crashCase(se2.String())})
 		if len(crashes) >= 2 {
 			return acc, crashes
 		}
@@ -692,7 +734,7 @@ func mergeOut(a, b *WorkerOut) *WorkerOut {
 
 // ---------------------------------------------------------------- evidence
 
-func writeEvidence(p *props.Prop, tier string, seed uint64, t *WorkerOut, distinct int, wallS float64, nViol, known, workers int) {
+func writeEvidence(p *props.Prop, tier string, seed uint64, t *WorkerOut, distinct int, wallS float64, nViol, known, workers int, fine map[string]any) {
 	samples := []any{}
 	for i, s := range t.Samples {
 		if i >= 3 {
@@ -726,6 +768,11 @@ func writeEvidence(p *props.Prop, tier string, seed uint64, t *WorkerOut, distin
 		"stubbed_components":      p.Stub,
 		"workers":                 workers,
 		"known_findings_reported": known,
+	}
+	if fine != nil {
+		// the batch that ran just before this one against the statement-granularity build (its violations, if any, were
+		// printed and have their own replay files; its runs are NOT counted in evaluations / distinct_nontrivial above)
+		cov["statement_granularity_batch"] = fine
 	}
 	ev := map[string]any{
 		"property_id": p.ID,
